@@ -617,19 +617,21 @@ where
                                 props.extend(inner_props.into_iter().filter(|prop| match prop {
                                     RefinedTsTypeElement::Property(TsPropertySignature {
                                         key,
+                                        computed,
                                         ..
                                     })
                                     | RefinedTsTypeElement::MethodSignature(TsMethodSignature {
                                         key,
+                                        computed,
                                         ..
                                     })
                                     | RefinedTsTypeElement::GetterSignature(TsGetterSignature {
                                         key,
+                                        computed,
                                         ..
-                                    }) => match &**key {
-                                        Expr::Ident(ident) => keys.contains(&ident.sym),
-                                        Expr::Lit(Lit::Str(str)) => keys.contains(&str.value),
-                                        _ => false,
+                                    }) => match static_key_name(key, *computed) {
+                                        Some(key) => keys.contains(key),
+                                        None => false,
                                     },
                                     RefinedTsTypeElement::CallSignature(..) => false,
                                 }));
@@ -646,19 +648,21 @@ where
                                 props.extend(inner_props.into_iter().filter(|prop| match prop {
                                     RefinedTsTypeElement::Property(TsPropertySignature {
                                         key,
+                                        computed,
                                         ..
                                     })
                                     | RefinedTsTypeElement::MethodSignature(TsMethodSignature {
                                         key,
+                                        computed,
                                         ..
                                     })
                                     | RefinedTsTypeElement::GetterSignature(TsGetterSignature {
                                         key,
+                                        computed,
                                         ..
-                                    }) => match &**key {
-                                        Expr::Ident(ident) => !keys.contains(&ident.sym),
-                                        Expr::Lit(Lit::Str(str)) => !keys.contains(&str.value),
-                                        _ => true,
+                                    }) => match static_key_name(key, *computed) {
+                                        Some(key) => !keys.contains(key),
+                                        None => true,
                                     },
                                     RefinedTsTypeElement::CallSignature(..) => true,
                                 }));
@@ -849,16 +853,16 @@ where
                                     TsTypeElement::TsPropertySignature(TsPropertySignature {
                                         key,
                                         type_ann,
+                                        computed,
                                         ..
                                     })
                                     | TsTypeElement::TsGetterSignature(TsGetterSignature {
                                         key,
                                         type_ann,
+                                        computed,
                                         ..
                                     }) => {
-                                        if let Expr::Ident(Ident { sym: key, .. })
-                                        | Expr::Lit(Lit::Str(Str { value: key, .. })) = &**key
-                                        {
+                                        if let Some(key) = static_key_name(key, *computed) {
                                             if keys.contains(key) {
                                                 type_ann
                                                     .as_ref()
@@ -872,11 +876,10 @@ where
                                     }
                                     TsTypeElement::TsMethodSignature(TsMethodSignature {
                                         key,
+                                        computed,
                                         ..
                                     }) => {
-                                        if let Expr::Ident(Ident { sym: key, .. })
-                                        | Expr::Lit(Lit::Str(Str { value: key, .. })) = &**key
-                                        {
+                                        if let Some(key) = static_key_name(key, *computed) {
                                             if keys.contains(key) {
                                                 Some(Box::new(TsType::TsTypeRef(TsTypeRef {
                                                     type_name: TsEntityName::Ident(
@@ -1008,16 +1011,16 @@ where
                                 TsTypeElement::TsPropertySignature(TsPropertySignature {
                                     key,
                                     type_ann,
+                                    computed,
                                     ..
                                 })
                                 | TsTypeElement::TsGetterSignature(TsGetterSignature {
                                     key,
                                     type_ann,
+                                    computed,
                                     ..
                                 }) => {
-                                    if let Expr::Ident(Ident { sym: key, .. })
-                                    | Expr::Lit(Lit::Str(Str { value: key, .. })) = &**key
-                                    {
+                                    if let Some(key) = static_key_name(key, *computed) {
                                         if keys.contains(key) {
                                             type_ann
                                                 .as_ref()
@@ -1030,11 +1033,11 @@ where
                                     }
                                 }
                                 TsTypeElement::TsMethodSignature(TsMethodSignature {
-                                    key, ..
+                                    key,
+                                    computed,
+                                    ..
                                 }) => {
-                                    if let Expr::Ident(Ident { sym: key, .. })
-                                    | Expr::Lit(Lit::Str(Str { value: key, .. })) = &**key
-                                    {
+                                    if let Some(key) = static_key_name(key, *computed) {
                                         if keys.contains(key) {
                                             Some(Box::new(TsType::TsTypeRef(TsTypeRef {
                                                 type_name: TsEntityName::Ident(
@@ -1385,15 +1388,14 @@ where
                             .flat_map(|emit| match emit {
                                 RefinedTsTypeElement::MethodSignature(TsMethodSignature {
                                     key,
+                                    computed,
                                     ..
                                 })
                                 | RefinedTsTypeElement::Property(TsPropertySignature {
-                                    key, ..
-                                }) => match &*key {
-                                    Expr::Ident(ident) => vec![ident.sym.clone()],
-                                    Expr::Lit(Lit::Str(str)) => vec![str.value.clone()],
-                                    _ => vec![],
-                                },
+                                    key,
+                                    computed,
+                                    ..
+                                }) => static_key_name(&key, computed).cloned().into_iter().collect(),
                                 RefinedTsTypeElement::CallSignature(TsCallSignatureDecl {
                                     params,
                                     ..
@@ -1431,7 +1433,7 @@ where
 
 fn extract_prop_name(expr: Expr, computed: bool) -> PropName {
     match expr {
-        Expr::Ident(ident) => PropName::Ident(ident.into()),
+        Expr::Ident(ident) if !computed => PropName::Ident(ident.into()),
         Expr::Lit(Lit::Str(str)) => PropName::Str(str),
         Expr::Lit(Lit::Num(num)) => PropName::Num(num),
         Expr::Lit(Lit::BigInt(bigint)) => PropName::BigInt(bigint),
@@ -1446,6 +1448,16 @@ fn extract_prop_name(expr: Expr, computed: bool) -> PropName {
                 PropName::Ident(quote_ident!(""))
             }
         }
+    }
+}
+
+/// The name of a member whose key is known statically: `name`, `'name'` or `['name']` -
+/// not `[name]`, which is named by the value of `name`.
+fn static_key_name(key: &Expr, computed: bool) -> Option<&Atom> {
+    match key {
+        Expr::Ident(Ident { sym, .. }) if !computed => Some(sym),
+        Expr::Lit(Lit::Str(Str { value, .. })) => Some(value),
+        _ => None,
     }
 }
 
